@@ -77,9 +77,15 @@ func init() {
 		for _, c := range [][]int64{{2, 0, 2, 1}, {2, 1, 2, 0}, {1, 1, 1, 2}, {0, 0, 3, 2}, {1, 2, 1, 1}, {3, 0, 1, 0}} {
 			thorough = append(thorough, &Job{Pkg: "", Func: "ZZ_C07_TransportFault", Args: c, Bounds: bf})
 		}
+		bc := "a handler closes the channel and then panics in the same delivery (concurrent=0) or another goroutine closes the channel while the delivery is in flight (concurrent=1); entries: 0 read loop, 1 Channel.Write, 2 Channel.Trigger"
+		for entry := int64(0); entry < 3; entry++ {
+			for conc := int64(0); conc < 2; conc++ {
+				quick = append(quick, &Job{Pkg: "", Func: "ZZ_C07_CloseThenPanic", Args: []int64{entry, (entry + conc) % 5, conc * 2, conc}, Bounds: bc})
+			}
+		}
 		Specs["C07"] = &Spec{
 			Jobs: jobsBy(quick, thorough), Labels: labelFilter("c07-"),
-			MustReach: []string{"c07-bomb-fired", "c07-closed", "c07-open", "c07-fault-closed", "c07-fault-reported"},
+			MustReach: []string{"c07-bomb-fired", "c07-closed", "c07-open", "c07-fault-closed", "c07-fault-reported", "c07-close-then-panic-done"},
 			Bounds: map[string]string{
 				"quick":    "one third of the 90 (entry, event, panic value, exception-handler mode) combinations with two candidate handler positions; 7 transport-fault scenarios",
 				"thorough": "all 90 combinations; 6 more transport-fault scenarios",
